@@ -1,6 +1,41 @@
 // Package base32 implements utilities for encoding and decoding text using I2P's alphabet
 package base32
 
+import (
+	b32 "encoding/base32"
+	"strings"
+)
+
+// validateEncodedInput checks the text handed to a decoder before it reaches
+// encoding/base32, whose DecodeString is more lenient than this package
+// documents: it ignores everything that follows a complete padded group
+// ("iq======a" decodes) and, for an encoding without padding, treats the byte
+// 0xFF as a padding character ("wpfxza4\xff" decodes). Only alphabet
+// characters, CR and LF (which the decoder skips) and, for the padded form, a
+// well-formed trailing run of '=' are let through.
+func validateEncodedInput(data string, padded bool) error {
+	n, pad := 0, 0
+	for i := 0; i < len(data); i++ {
+		c := data[i]
+		switch {
+		case c == '\r' || c == '\n':
+			continue
+		case padded && c == '=':
+			pad++
+		case strings.IndexByte(I2PEncodeAlphabet, c) < 0 || pad > 0:
+			return b32.CorruptInputError(i)
+		}
+		n++
+	}
+	if padded {
+		validPad := pad == 0 || pad == 1 || pad == 3 || pad == 4 || pad == 6
+		if n%8 != 0 || !validPad {
+			return b32.CorruptInputError(len(data))
+		}
+	}
+	return nil
+}
+
 // EncodeToString encodes binary data to a base32 string using I2P's encoding alphabet.
 // It converts arbitrary byte data into a human-readable base32 string representation
 // using the I2P-specific lowercase alphabet defined in RFC 3548.
@@ -18,6 +53,9 @@ func EncodeToString(data []byte) string {
 func DecodeString(data string) ([]byte, error) {
 	// Parse I2P-specific base32 string with error handling
 	// Validates input characters against I2P alphabet before decoding
+	if err := validateEncodedInput(data, true); err != nil {
+		return nil, err
+	}
 	return I2PEncoding.DecodeString(data)
 }
 
@@ -32,6 +70,9 @@ func EncodeToStringNoPadding(data []byte) string {
 // This accepts the standard I2P .b32.i2p address format (52 unpadded characters
 // for a 32-byte hash).
 func DecodeStringNoPadding(data string) ([]byte, error) {
+	if err := validateEncodedInput(data, false); err != nil {
+		return nil, err
+	}
 	return I2PEncodingNoPadding.DecodeString(data)
 }
 
@@ -63,7 +104,7 @@ func DecodeStringSafe(data string) ([]byte, error) {
 	if len(data) > MAX_DECODE_SIZE {
 		return nil, ErrInputTooLarge
 	}
-	return I2PEncoding.DecodeString(data)
+	return DecodeString(data)
 }
 
 // DecodeStringSafeNoPadding decodes an unpadded base32 string with input validation.
@@ -76,5 +117,5 @@ func DecodeStringSafeNoPadding(data string) ([]byte, error) {
 	if len(data) > MAX_DECODE_SIZE {
 		return nil, ErrInputTooLarge
 	}
-	return I2PEncodingNoPadding.DecodeString(data)
+	return DecodeStringNoPadding(data)
 }
